@@ -180,8 +180,9 @@ Definition begin_op (w : world) (t : nat) : world :=
   match t_pc s, t_ops s with
   | Idle, o :: rest =>
       let p := match o, held s with
-               | OLock m, _ => LkFast m
-               | OTry m, _ => TryFast m
+               | OLock m, None => LkFast m
+               | OTry m, None => TryFast m
+               | OLock _, Some _ | OTry _, Some _ => Crash 4   (* client contract: no re-acquisition while holding *)
                | OUnlock, Some m => UlFast m
                | OUnlock, None => Crash 1
                end in
